@@ -47,7 +47,7 @@ cp -r $demo $out/demo
 [ -f "$notes" ] && cp $notes $out/NOTES.md
 python3 - "$prop" "$id" "$clean_rc" "$applies" "$build_rc" "$suite_rc" "$mut_rc" "$check_rc" "$vline" "${what:-}" "$demo_tail" <<'EOF'
 import json, sys, re
-prop, id_, clean, applies, build, suite, mut, chk, vline, what, demo_tail = sys.argv[1:12]
+prop, id_, clean, applies, build, suite, mut, chk, vline, what, demo_tail = [a.encode("utf-8", "replace").decode("utf-8") for a in sys.argv[1:12]]
 notes = ""
 try:
     notes = open(f"/verif/seeded/{id_}/NOTES.md").read()
